@@ -1,2 +1,114 @@
-(* props/C02.v — placeholder while the proofs are being written. *)
-Require Import Aiuti.FLock.
+(* props/C02.v — C02: FileLock gives mutual exclusion across threads, objects and
+   processes.  ONLY theorem statements about the executable model FLock.v (the one
+   the correspondence check replays on the schedules the real class just ran), each
+   closed by a lemma of FLockMutex.v (invariants: FLockInv.v, FLockTL.v, FLockFD.v),
+   with Print Assumptions beneath.
+
+   Reading aid.  [init_cfg ocfg tcfg fl] = any objects (process, reentrant?, constructor
+   timeout) on the one lock path, any threads (process, program of acquire / acquire_ctx
+   / with / release / release(force) calls with blocking / non-blocking / timed
+   arguments), any OSError script.  [run s evs] applies ANY list of events: [EStep t]
+   = thread t executes its pending gated primitive (a disabled choice stutters),
+   [EAdv n] = the clock moves, [ECrash p] = process p dies (the kernel closes its
+   descriptors).  [inside_b s t] = t's process is alive and t's latest successful
+   acquire / acquire_ctx / with-entry has not been released by t yet.
+   [viol s = false] = the property's contract held during the run: no thread called
+   release on a lock held by ANOTHER thread, and threads only use objects of their
+   own process ("releasing another thread's lock is outside the contract").        *)
+From Coq Require Import List Arith NArith Bool.
+Import ListNotations.
+Require Import Aiuti.FLock Aiuti.FLockInv Aiuti.FLockTL Aiuti.FLockFD Aiuti.FLockMutex Aiuti.FLockContract.
+
+(* At most one thread is inside, whatever the configuration, the fault script and
+   the schedule — including schedules with crashes (used again by C13).  Threads of
+   one object, of different objects, of different processes alike. *)
+Theorem mutex_threads_objects_procs :
+  forall (ocfg : list (pid * bool * tmo)) (tcfg : list (pid * list call))
+         (fl : list (skind * nat)) (evs : list ev) (t1 t2 : tid),
+    let s := run (init_cfg ocfg tcfg fl) evs in
+    viol s = false -> inside_b s t1 = true -> inside_b s t2 = true -> t1 = t2.
+Proof. exact mutex_lemma. Qed.
+Print Assumptions mutex_threads_objects_procs.
+
+(* A contender that is inside stays the holder until it releases: no event of
+   anybody else (a step of another thread of any process, the clock, the crash of
+   another process) ends its tenure — afterwards it is still inside, its object
+   still records the descriptor that carries the kernel lock, and it still owns the
+   object's thread lock. *)
+Theorem holder_until_release :
+  forall ocfg tcfg fl evs e t o,
+    let s := run (init_cfg ocfg tcfg fl) evs in
+    let s' := apply s e in
+    viol s' = false -> foreign s t e ->
+    inside_b s t = true -> In o (t_cs (thr s t)) ->
+    inside_b s' t = true /\ In o (t_cs (thr s' t)) /\
+    exists d, o_fd (objs s' o) = Some d /\ holder s' = Some d /\ o_own (objs s' o) = Some t.
+Proof. exact holder_until_release_lemma. Qed.
+Print Assumptions holder_until_release.
+
+(* The contract as a STATIC, decidable condition on the configuration: [cfg_ok]
+   (FLockContract.v) = every thread program, started with empty hands, releases only
+   objects it holds at that point on both outcomes of every acquire ([prog_ok], an
+   inductive predicate decided by [prog_okb]), and mentions only objects of the
+   thread's own process.  Such programs never leave the contract, on any schedule,
+   fault script or crash pattern ... *)
+Theorem contract_static :
+  forall ocfg tcfg, cfg_ok ocfg tcfg = true ->
+  forall fl evs, viol (run (init_cfg ocfg tcfg fl) evs) = false.
+Proof. exact contract_static_lemma. Qed.
+Print Assumptions contract_static.
+
+(* ... hence mutual exclusion holds for them with no hypothesis on the run. *)
+Theorem mutex_for_contract_respecting_programs :
+  forall ocfg tcfg, cfg_ok ocfg tcfg = true ->
+  forall fl evs t1 t2,
+    let s := run (init_cfg ocfg tcfg fl) evs in
+    inside_b s t1 = true -> inside_b s t2 = true -> t1 = t2.
+Proof. exact mutex_static_lemma. Qed.
+Print Assumptions mutex_for_contract_respecting_programs.
+
+(* The contract hypothesis is needed (and so is not vacuous): if a thread that holds
+   nothing releases a plain (non-reentrant) lock that another thread holds, two
+   threads end up inside. *)
+Definition acq (o : oid) : call := CAcq o MPlain true TNone 2%N 1.
+Theorem mutex_refuted_outside_contract :
+  exists ocfg tcfg fl evs t1 t2,
+    let s := run (init_cfg ocfg tcfg fl) evs in
+    viol s = true /\ inside_b s t1 = true /\ inside_b s t2 = true /\ t1 <> t2.
+Proof.
+  exists [(0, false, TNeg)], [(0, [acq 0]); (0, [CRel 0 false]); (0, [acq 0])], [],
+         [EStep 0; EStep 0; EStep 0; EStep 0; EStep 1; EStep 1; EStep 1; EStep 1;
+          EStep 2; EStep 2; EStep 2; EStep 2], 0, 2.
+  vm_compute. repeat split. discriminate.
+Qed.
+Print Assumptions mutex_refuted_outside_contract.
+
+(* Non-vacuity: two processes, one object each (a plain one; a reentrant one with a
+   constructor timeout used through `with`), an OSError on the 4th open.  After the
+   prefix, thread 0 is inside and thread 1's with-statement has timed out after
+   polling (contract respected); later process 0 crashes and thread 1 gets in twice
+   (reentrant). *)
+Definition ex_ocfg : list (pid * bool * tmo) := [(0, false, TNeg); (1, true, TVal 4%N)].
+Definition ex_tcfg : list (pid * list call) :=
+   [(0, [acq 0; CRel 0 false]);
+    (1, [CAcq 1 MWith true TNone 2%N 1; CRel 1 false; CAcq 1 MPlain false TNone 2%N 2;
+         CAcq 1 MPlain true TNone 2%N 0; CRel 1 true])].
+Definition ex_cfg := init_cfg ex_ocfg ex_tcfg [(KOpen, 3)].
+Example cfg_ok_example : cfg_ok ex_ocfg ex_tcfg = true.
+Proof. vm_compute. reflexivity. Qed.
+Definition ex_prefix :=
+  [EStep 0; EStep 0; EStep 0; EStep 0; EStep 1; EStep 1; EStep 1; EStep 1; EStep 1; EAdv 2;
+   EStep 1; EStep 1; EStep 1; EStep 1; EAdv 4; EStep 1; EStep 1; EStep 1; EStep 1; EAdv 6;
+   EStep 1; EStep 1; EStep 1; EStep 1; EStep 1].
+Example mutex_example_contended :
+  let s := run ex_cfg ex_prefix in
+  viol s = false /\ inside_b s 0 = true /\ inside_b s 1 = false /\ t_res (thr s 1) = [RTimeout].
+Proof. vm_compute. repeat split. Qed.
+Example mutex_example_after_crash :
+  let s := run ex_cfg (ex_prefix ++ [ECrash 0; EStep 0; EStep 1; EStep 1; EStep 1; EStep 1; EStep 1; EStep 1]) in
+  viol s = false /\ inside_b s 0 = false /\ inside_b s 1 = true /\ t_cs (thr s 1) = [1; 1].
+Proof. vm_compute. repeat split. Qed.
+Example holder_until_release_example :
+  let s := run ex_cfg (firstn 8 ex_prefix) in
+  foreign s 0 (EStep 1) /\ inside_b s 0 = true /\ In 0 (t_cs (thr s 0)) /\ viol (apply s (EStep 1)) = false.
+Proof. vm_compute. repeat split; auto. discriminate. Qed.
